@@ -289,3 +289,40 @@ Theorem C08_sprintbuf_tmp_leak_refuted :
   end.
 Proof. exact sprintbuf_tmp_leak_refuted. Qed.
 Print Assumptions C08_sprintbuf_tmp_leak_refuted.
+
+(* ================= configuration calls that allocate: json_c_set_serialization_double_format *)
+(* every scope value, format or NULL, allocator behaviour; [fc_st] is C02's model of the
+   settings (SerModel.fmt_state / set_format).  Return 0: the settings are those of
+   SerModel.set_format and exactly their strings are live.  Return -1: configuration and live
+   blocks are exactly what they were *)
+Theorem C08_set_format_clean : forall o c tid fmt scope s rest,
+  Permutation (live s) (cfg_blocks c ++ rest) ->
+  op_fault_clean (fun b a => fst a = fst b /\ live (snd a) = live (snd b)) (c, s)
+    (fun a _ => fc_st (fst a) = fst (set_format true (fc_st c) tid fmt scope) /\
+                Permutation (live (snd a)) (cfg_blocks (fst a) ++ rest))
+    (cfg_out (set_format_cfg o c tid fmt scope s)).
+Proof. exact set_format_clean. Qed.
+Print Assumptions C08_set_format_clean.
+
+(* ... so after a failed call every thread serializes doubles as before *)
+Theorem C08_set_format_failed_keeps_effective : forall o c tid fmt scope s rest c' rc s',
+  Permutation (live s) (cfg_blocks c ++ rest) ->
+  set_format_cfg o c tid fmt scope s = Ok (c', rc) s' -> rc <> 0 ->
+  (forall t, effective (fc_st c') t = effective (fc_st c) t) /\ live s' = live s.
+Proof. exact set_format_failed_keeps_effective. Qed.
+Print Assumptions C08_set_format_failed_keeps_effective.
+
+(* negative control (the thread's override released before the copy) and non-vacuity *)
+Theorem C08_set_format_early_free_refuted :
+  set_format_early (single_fault 10) ex_cfg 1 (Some [37; 46; 50; 102]) 0 (mkast 10 [5%nat])
+    = Ok (mkfc (mkfs None []) None None, -1) (mkast 11 []) /\
+  effective (fc_st ex_cfg) 1 = Some [37; 46; 51; 102] /\
+  effective (mkfs None []) 1 = None /\
+  set_format_cfg (single_fault 10) ex_cfg 1 (Some [37; 46; 50; 102]) 0 (mkast 10 [5%nat])
+    = Ok (ex_cfg, -1) (mkast 11 [5%nat]) /\
+  set_format_cfg no_fault ex_cfg 1 (Some [37; 46; 50; 102]) 0 (mkast 10 [5%nat])
+    = Ok (mkfc (mkfs (Some [37; 46; 50; 102]) []) (Some 10%nat) None, 0) (mkast 11 [10%nat]) /\
+  set_format_cfg (single_fault 10) ex_cfg 1 (Some [37; 46; 50; 102]) 7 (mkast 10 [5%nat])
+    = Ok (ex_cfg, -1) (mkast 10 [5%nat]).
+Proof. exact set_format_early_free_refuted. Qed.
+Print Assumptions C08_set_format_early_free_refuted.
